@@ -108,6 +108,15 @@ def run(ctx, repo):
                         if any(isinstance(t_, ast.Compare) and len(t_.ops) == 1 and isinstance(t_.ops[0], (ast.In, ast.NotIn)) and isinstance(t_.left, ast.Name)
                                and t_.left.id == p0 and 'jumpers_by_bib' in ast.unparse(t_.comparators[0]) for t_ in ast.walk(callee[0])):
                             tested = True
+                        # or looks it up with .get() and refuses a None
+                        gets_ = [a_ for a_ in ast.walk(callee[0]) if isinstance(a_, ast.Assign) and isinstance(a_.value, ast.Call) and isinstance(a_.value.func, ast.Attribute)
+                                 and a_.value.func.attr == 'get' and 'jumpers_by_bib' in ast.unparse(a_.value.func.value) and a_.value.args
+                                 and isinstance(a_.value.args[0], ast.Name) and a_.value.args[0].id == p0 and isinstance(a_.targets[0], ast.Name)]
+                        for a_ in gets_:
+                            nm_ = a_.targets[0].id
+                            if any(isinstance(i_, ast.If) and isinstance(i_.test, ast.Compare) and isinstance(i_.test.ops[0], ast.Is) and isinstance(i_.test.left, ast.Name)
+                                   and i_.test.left.id == nm_ and any(isinstance(y_, ast.Raise) for y_ in ast.walk(i_)) for i_ in ast.walk(callee[0])):
+                                tested = True
             if tested or caught:
                 ctx.ok('R2', '%s.%s: the bib is tested before the athlete is looked up' % (COMP, fdef.name))
             else:
@@ -676,6 +685,39 @@ def check_limit_test(ctx, guard):
 
 def check_failed(ctx, f):
     """failed(): eliminated (and dismissed) exactly when consecutive_failures >= round_lim after the increment"""
+    # decided by folding the method (after its admission guard) over the complete domain failures-so-far x attempt limit: the flags are
+    # touched only through comparisons with the limit; the reading of the if below is the fallback when the body does not fold
+    try:
+        import itertools as _it
+        from .. import fold as _fold
+        body_ = [st for st in f.body if not (isinstance(st, ast.Expr) and isinstance(st.value, ast.Call) and call_name(st.value) == GUARD_NAME[0])
+                 and not (isinstance(st, ast.Expr) and isinstance(st.value, ast.Constant))]
+        bad_ = None
+        for cf_, R_ in _it.product(range(0, 5), (1, 3)):
+            me = _fold.ObjConst({'attempts_by_height': ['x' * min(cf_, 2)], 'consecutive_failures': cf_, 'round_lim': R_, 'eliminated': False,
+                                 'dismissed': False, 'highest_cleared': 0, 'highest_cleared_index': -1})
+            env_ = {f.args.args[0].arg: me}
+            for a_ in f.args.args[1:]:
+                env_[a_.arg] = 1
+            try:
+                for st in body_:
+                    _fold.Folder().stmt(st, env_)
+            except _fold._Return:
+                pass
+            out_ = (me.attrs['consecutive_failures'], bool(me.attrs['eliminated']), bool(me.attrs['dismissed']), me.attrs['attempts_by_height'][-1][-1:])
+            want_ = (cf_ + 1, cf_ + 1 >= R_, cf_ + 1 >= R_, 'x')
+            if out_ != want_ and bad_ is None:
+                bad_ = (cf_, R_, out_, want_)
+        if bad_:
+            ctx.finding('R6', '%s::%s.failed::elimination threshold' % (HJ, JUMPER), HJ, f.lineno,
+                        'failed() with %d failures in a row before it and the limit %d leaves (failures, eliminated, dismissed, letter) = %s; the rules '
+                        'need %s: an athlete is out exactly when the failures in a row reach the limit' % (bad_[0], bad_[1], bad_[2], bad_[3]))
+        else:
+            ctx.ok('R6', 'failed() eliminates and dismisses exactly when consecutive_failures reaches round_lim (folded on 10 cases)')
+            ctx.ok('R6', 'failed() below the limit keeps the athlete in the round')
+        return
+    except Exception:
+        pass
     incs = [n for n in f.body if isinstance(n, ast.AugAssign) and isinstance(n.target, ast.Attribute)
             and n.target.attr == 'consecutive_failures' and isinstance(n.op, ast.Add)
             and isinstance(n.value, ast.Constant) and n.value.value == 1]
